@@ -2,6 +2,7 @@ package compare
 
 import (
 	"math"
+	"strconv"
 
 	verif "github.com/vedadiyan/genql/zz_verif"
 )
@@ -316,5 +317,49 @@ func H_C15_kinds_other() {
 		ro := Compare(num, other)
 		verif.Assert((ro == -1 || ro == 0 || ro == 1) && Compare(other, num) == -ro, "other-kinds-antisymmetric")
 	}
+	verif.Reach("end")
+}
+
+// H_C15_history: the order of a number against a string depends on the two
+// operands only, not on what was compared before: a float32 and the float64
+// of the same mathematical value (different decimal texts when the value is
+// not dyadic), an integer and the float of the same value, each against its
+// own text and a string next to it, in either order, then once more.
+func H_C15_history() {
+	pair := verif.Choose("pair", 3)
+	k := verif.Choose("k", 24) - 12
+	order := verif.Choose("order", 2)
+	var a, b any
+	var ta, tb string
+	switch pair {
+	case 0:
+		x := float32(k) / 10
+		a, ta = x, tenthText(k)
+		b, tb = float64(x), strconv.FormatFloat(float64(x), 'g', -1, 64)
+	case 1:
+		a, ta = k, itoa(k)
+		b, tb = float64(k), itoa(k)
+	case 2:
+		x := float32(k) / 4
+		a, ta = x, quarterText(k)
+		b, tb = float64(x), quarterText(k)
+	}
+	if order == 1 {
+		a, b, ta, tb = b, a, tb, ta
+	}
+	s := verif.Str("s", 1, "0125.-e")
+	ref := func(t, s string) int {
+		if t < s {
+			return -1
+		} else if t > s {
+			return 1
+		}
+		return 0
+	}
+	verif.Assert(Compare(a, ta) == 0 && Compare(ta, a) == 0, "first-equal-to-own-text")
+	verif.Assert(Compare(b, tb) == 0 && Compare(tb, b) == 0, "second-equal-to-own-text")
+	verif.Assert(Compare(a, ta) == 0, "first-again")
+	verif.Assert(Compare(a, s) == ref(ta, s) && Compare(s, a) == -ref(ta, s), "first-decimal-text-order")
+	verif.Assert(Compare(b, s) == ref(tb, s) && Compare(s, b) == -ref(tb, s), "second-decimal-text-order")
 	verif.Reach("end")
 }
